@@ -380,9 +380,10 @@ def rule_order(run):
     idx = run.idx
     seen = set()
     all_calls = None
+    facts = order_rule.global_kinds(idx)   # which functions return sets / which parameters receive sets from a caller
     for m in idx.all_modules("cohdl/"):
         for q, f in m.functions.items():
-            for n, kind, it in order_rule.find_sites(m, f):
+            for n, kind, it in order_rule.find_sites(m, f, facts):
                 key = f"{m.rel}::{q}::{it}"
                 line = getattr(n, "lineno", None) or getattr(getattr(n, "iter", None), "lineno", 0)
                 e = exc.get(key)
@@ -408,6 +409,14 @@ def rule_order(run):
                     unexpected = sorted(callers - set(e.get("expected_callers", [])))
                     ok = not unexpected
                     found = f"callers: {sorted(callers) or 'none'}" + (f"; unexpected: {unexpected}" if unexpected else "")
+                if e.get("verify") == "keyed_writes_only" and isinstance(n, ast.For):
+                    lv = n.target.id if isinstance(n.target, ast.Name) else None
+                    ok = all(isinstance(st, ast.Assign) and isinstance(st.targets[0], ast.Subscript) and dotted(st.targets[0].slice) == lv and not any(isinstance(x, ast.Name) and x.id == lv for x in ast.walk(st.value)) for st in n.body)
+                    found = "loop body: keyed writes only" if ok else "loop body changed: " + "; ".join(src(st)[:40] for st in n.body)
+                elif (e.get("verify") or "").startswith("calls_only:") and isinstance(n, ast.For):
+                    allowed_call = e["verify"].split(":", 1)[1]
+                    ok = all(isinstance(st, ast.Expr) and isinstance(st.value, ast.Call) and isinstance(st.value.func, ast.Attribute) and st.value.func.attr == allowed_call for st in n.body)
+                    found = f"loop body: only {allowed_call}(..) calls" if ok else "loop body changed: " + "; ".join(src(st)[:40] for st in n.body)
                 run.ob(ok, f"{m.rel}::{q}", file=m.rel, line=line, detail=it,
                        expected="reviewed latent site: " + e["reason"][:80], found=found)
     for key in exc:
